@@ -143,6 +143,54 @@ def check_random(t, n, seed_tag):
             t.fail("C20|Sensors|requested-mag_noise-not-applied", {"requested": lvl, "attribute": float(S3.mag_noise), "std": sd3})
 
 
+def check_random_options(t, n, seed_tag):
+    """random trajectory route with its options (degrees, pinned yaw, span, rate): all outputs describe ONE trajectory, and the
+    bias-corrected gyroscopes integrate from the first attitude back to it"""
+    for tag, kw in (("plain", {}), ("in_degrees", {"in_degrees": True}), ("yaw=0", {"yaw": 0.0}), ("yaw=30,in_degrees", {"yaw": 30.0, "in_degrees": True}),
+                    ("yaw=-120,50Hz", {"yaw": -120.0, "freq": 50.0}), ("span", {"span": (-0.5, 0.5)}), ("normalized_mag,yaw=75", {"normalized_mag": True, "yaw": 75.0})):
+        t.calls += 1
+        t.keys.add(("random-options", n, tag, seed_tag))
+        o = core.outcome(lambda: Sensors(num_samples=n, gyr_noise=0.0, acc_noise=0.0, mag_noise=0.0, **kw))
+        if o[0] != "ok":
+            t.fail("C20|Sensors(num_samples=, %s)|raises-%s" % (tag, o[1]), {"n": n, "options": kw, "err": o[2]})
+            continue
+        S = o[1]
+        Q = np.asarray(S.quaternions, dtype=float)
+        R = np.asarray(S.rotations, dtype=float)
+        g = np.asarray(S.reference_gravitational_vector, dtype=float)
+        h = np.asarray(S.reference_magnetic_vector, dtype=float)
+        M = np.asarray(S.magnetometers, dtype=float)
+        wantM = np.array([R[k].T @ h for k in range(n)])
+        if kw.get("normalized_mag"):
+            wantM = wantM / np.linalg.norm(wantM, axis=1)[:, None]
+        da = max(maxdiff(S.accelerometers[k], R[k].T @ g) for k in range(n))
+        dm = maxdiff(M, wantM)
+        if not (da <= 1e-11 and dm <= (1e-12 if kw.get("normalized_mag") else 1e-7)):
+            t.fail("C20|Sensors(num_samples=, %s)|samples-not-reference-in-body-frame" % tag, {"n": n, "options": kw, "acc": da, "mag": dm})
+        if "yaw" in kw:
+            yaw = np.asarray(S.ang_pos, dtype=float)[:, 2]
+            if not maxdiff(yaw, np.full(n, math.radians(kw["yaw"]))) <= 1e-12:
+                t.fail("C20|Sensors(num_samples=, %s)|yaw-not-pinned" % tag, {"n": n, "options": kw})
+        for k in (0, n // 2, n - 1):
+            from ahrs.common.quaternion import Quaternion
+            qa = np.asarray(Quaternion(rpy=np.asarray(S.ang_pos[k], dtype=float)), dtype=float)
+            if not min(maxdiff(qa, Q[k]), maxdiff(qa, -Q[k])) <= 1e-9:
+                t.fail("C20|Sensors(num_samples=, %s)|ang_pos-vs-quaternions" % tag, {"n": n, "options": kw, "k": k})
+        unit = (180.0 / math.pi) if kw.get("in_degrees") else 1.0
+        w = (np.asarray(S.gyroscopes, dtype=float) - np.asarray(S.biases_gyroscopes, dtype=float)) / unit
+        ar = F.AngularRate(Dt=1.0 / float(S.frequency))
+        q = Q[0].copy()
+        worst, bound = 0.0, 1e-9
+        for k in range(1, n):
+            q = np.asarray(ar.update(q, w[k], method="closed"), dtype=float)
+            c = min(1.0, abs(float(Q[k - 1] @ Q[k])))
+            bound += (2.0 * math.acos(c)) ** 3 / 12.0
+            worst = max(worst, min(maxdiff(q, Q[k]), maxdiff(q, -Q[k])))
+        t.resid("random-route-integration", worst)
+        if not worst <= bound:
+            t.fail("C20|Sensors(num_samples=, %s)|gyroscopes-do-not-integrate-back-to-trajectory" % tag, {"n": n, "options": kw, "err": worst, "bound": bound})
+
+
 def replay_cases(recs):
     t = Tally()
     for i, r in enumerate(recs):
@@ -163,6 +211,8 @@ def realistic(seed):
     check_given(t, [3, 1, -2, 1], [400, 1, -2, 2], 40, 100.0, False, True, "small-step")
     for n in (10, 50, 200):
         check_random(t, n, seed)
+    for n in (60, 300):
+        check_random_options(t, n, seed)
     return t
 
 
